@@ -33,6 +33,8 @@ OpOf(r) == [op |-> r.op, h |-> r.h, nh |-> r.nh, a |-> r.a, scr |-> r.scr, d |->
 
 CanStep(t) == (t \in Client /\ pend[t] # NoOp) \/ TaskCanStepW(t, FALSE)
 \* why an idle loop could go on although the real one does not: names the guard (and so the property)
+\* (C07: "a started error during restart terminates the actor as failed": failures of a RE-started incarnation's start)
+RstStartErr(a) == IF act[a].why = "startErr" /\ act[a].inc > 0 THEN ".restarted" ELSE ""
 \* a sibling under the same parent died of a failure (a broadcast that does not reach `a` then means the failure spread)
 SibFailed(a) == \E p \in Actor : \E i, j \in 1..Len(act[p].kids) :
                    act[p].kids[i].a = a /\ act[p].kids[j].a # a /\ act[act[p].kids[j].a].pc = "failed"
@@ -99,6 +101,7 @@ T_Exit == /\ IsEvent("exit")
                           ELSE IF t \in Actor /\ Leaving(t)
                           THEN (IF act[t].stream THEN "exit.loop.callback.stream"
                                 ELSE IF act[t].jh # "none" THEN "exit.loop.callback.owning" ELSE "exit.loop.callback")
+                          ELSE IF t \in Actor /\ act[t].tmo >= 0 /\ ~act[t].failto /\ hst.ab[t] # <<>> THEN "exit.loop.aftertimeout"   \* an abandoned invocation was to be survived
                           ELSE "exit.loop", t \in Actor /\ act[t].pc \in {"done", "failed"})
                      /\ G("exit.how", (E.how = "panic") <=> (act[t].why = "panic"))
                      /\ G("exit.cur", cur = t /\ ~yl)
@@ -156,7 +159,7 @@ T_Issue == /\ cur \in Client /\ ~yl /\ l' = l /\ pend[cur] # NoOp
 \* (a liveness query about an actor that FAILED implicates failure visibility, C06, besides C14)
 ResGuard(op, L) == IF L.a \in Actor /\ act[L.a].pc = "failed"
                    THEN (IF op \in {"stopped", "running", "try_from_registry", "already_running"} THEN "oe.res." \o op \o ".failed"
-                         ELSE "oe.res.failed." \o act[L.a].why \o (IF op \in {"await", "await_ref", "halt", "try_halt"} THEN ".await" ELSE ""))
+                         ELSE "oe.res.failed." \o act[L.a].why \o (IF op \in {"await", "await_ref", "halt", "try_halt"} THEN ".await" ELSE "") \o RstStartErr(L.a))
                    ELSE "oe.res." \o op
 LastMatchesCtx(op, L, sfx) ==
                       /\ G(IF sfx # "" THEN "oe.res." \o op \o sfx ELSE ResGuard(op, L), L.res = E.res)
@@ -203,7 +206,7 @@ T_Cb == /\ IsEvent("cb")
                                                 /\ hst.cb[a][Len(hst.cb[a])][1] = "pb" /\ hst.cb[a][Len(hst.cb[a]) - 1][1] = "fe"
                                                 /\ ~act[a].pbseen)
                           /\ act' = [act EXCEPT ![a].pbseen = TRUE] /\ UNCHANGED <<hnd, cli, rsp, tmr, reg, now, hst, cur, yl>>
-                     ELSE /\ (IF act[a].pc # "failed" THEN TRUE ELSE G("cb.pb.failed", FALSE))     \* the graceful epilogue on a failure path
+                     ELSE /\ (IF act[a].pc # "failed" THEN TRUE ELSE G("cb.pb.failed" \o RstStartErr(a), FALSE))     \* the graceful epilogue on a failure path
                           /\ (IF ~(act[a].pc = "idle" /\ act[a].mq # <<>>) THEN TRUE ELSE G("cb.pb.undrained." \o Head(act[a].mq).src \o (IF \E b \in Actor : act[b].pc = "failed" THEN ".fail" ELSE ""), FALSE))   \* stopping with accepted messages still queued
                           /\ G(IF HeldAsChild(a) THEN "cb.pb.child" ELSE "cb.pb",
                                (act[a].pc = "dequeued" /\ act[a].curp.k \in {"stop", "restart"}) \/ (act[a].pc = "idle" /\ act[a].mq = <<>> /\ ~ChanOpen(a)))
@@ -230,10 +233,10 @@ T_HBegin == /\ IsEvent("h_begin")
                /\ G("hb.cur", cur = a /\ ~yl)
                \* (a handler running on an actor that has FAILED: named after the failure, e.g. a timeout that should have been fatal)
                \* (... or while the specification's loop is about to process a restart / stop request it took out of the mailbox)
-               /\ G(IF act[a].pc = "failed" THEN "hb.phase.failed." \o act[a].why
+               /\ G(IF act[a].pc = "failed" THEN "hb.phase.failed." \o act[a].why \o RstStartErr(a)
                     ELSE IF act[a].pc = "dequeued" /\ act[a].curp.k \in {"restart", "stop"} THEN "hb.phase." \o act[a].curp.k \o "." \o act[a].curp.src
                     ELSE IF act[a].pc = "idle" /\ act[a].mq # <<>> /\ Head(act[a].mq).k \in {"restart", "stop"} THEN "hb.phase." \o Head(act[a].mq).k \o "." \o Head(act[a].mq).src
-                    ELSE "hb.phase." \o E.src,
+                    ELSE "hb.phase." \o E.src \o (IF E.src = "broker" /\ act[a].inc > 0 THEN ".restarted" ELSE ""),
                     act[a].pc = "dequeued" /\ act[a].curp.k = "task" /\ act[a].curp.rs # "ping")
                /\ G("hb.fifo." \o E.src, act[a].curp.m = E.m /\ act[a].curp.src = E.src)
                /\ G("hb.inst", act[a].inst = E.inst /\ act[a].inc = E.inc)
